@@ -798,6 +798,10 @@ fn valuations(p: &Prog) -> Vec<(i64, i64)> {
     v
 }
 
+pub fn selected_pub(tier: Tier) -> Vec<Prog> {
+    selected(tier)
+}
+
 fn selected(tier: Tier) -> Vec<Prog> {
     let mut v: Vec<Prog> = match tier {
         // all members with <= 4 nodes, and the 5-node members that contain a branch list
